@@ -33,12 +33,12 @@ LEVELS = {
         "technique": "Coq proof: decision procedure <-> approved-pair spec; generated allow-list Tie; exhaustive correspondence",
     },
     "C03": {
-        "text": "Executable Coq model of Parse (reflective partition over struct descriptors regenerated from the Go source + every UnmarshalOrdered override) and of json.Marshal (inlineFriendlyMarshalJSON + every MarshalJSON override); theorems for all documents: typed fields win, every key exactly once, keys sorted; every key the schema does not name survives once and unchanged at pipeline, command-step, group, matrix, cache level; wait/input/trigger/unknown contents verbatim; command/commands collapse to one member; plugin shape and mapping order. Tied to the library by differential correspondence on grammar-generated documents in three renderings and a marker-based no-data-loss oracle on both JSON and YAML output.",
+        "text": "Executable Coq model of Parse (reflective partition over struct descriptors regenerated from the Go source + every UnmarshalOrdered override) and of json.Marshal (inlineFriendlyMarshalJSON + every MarshalJSON override); theorems for all documents: typed fields win, every key exactly once, keys sorted; every key the schema does not name survives once and unchanged at pipeline, command-step, group, matrix, cache level; wait/input/trigger/unknown contents verbatim; command/commands collapse to one member; plugin shape and mapping order. Tied to the library by differential correspondence on grammar-generated documents in three renderings and a marker-based no-data-loss oracle on both JSON and YAML output. Declarative side: Model/NormalForm.v defines nf directly on the document tree from the property text (no typed intermediate, no parser, no marshaller); parse_marshal_nf: for every document with distinct keys, parse then marshal = nf, hard errors and marshal failures included; nf_keeps_unknown_keys: every unknown key at the top level and in every command step is in the normal form with its value unchanged. nf itself is run against the library on every generated document (dispatch C03nf).",
         "note": "trusted: YAML/JSON text layer, float formatting oracle, translator for struct tags; the normal form is the model composition, not a separate declarative nf",
         "technique": "Coq proof: losslessness lemmas over the partition/merge model for all documents; differential correspondence model vs Parse+json.Marshal",
     },
     "C07": {
-        "text": "Coq theorems over all node graphs (cyclic or not): DecodeYAML/rangeYAMLMap terminate within the model's fuel (bounded time, measure = nodes not yet in merged/seen), a node reaching itself through value edges never decodes (value cycles rejected), and the per-mapping merge rules: merged pairs never take an explicit or earlier-merged key, first occurrence wins, nothing else dropped; merge-cycle tolerance and precedence examples by computation. Tied to ordered/yaml.go by correspondence on yaml.v3 node graphs of generated texts (cycles included), with oracles for cycle verdicts, copy independence and agreement with yaml.v3's decoder.",
+        "text": "Coq theorems over all node graphs (cyclic or not): DecodeYAML/rangeYAMLMap terminate within the model's fuel (bounded time, measure = nodes not yet in merged/seen), a node reaching itself through value edges never decodes (value cycles rejected), and the per-mapping merge rules: merged pairs never take an explicit or earlier-merged key, first occurrence wins, nothing else dropped; merge-cycle tolerance and precedence examples by computation. Tied to ordered/yaml.go by correspondence on yaml.v3 node graphs of generated texts (cycles included), with oracles for cycle verdicts, copy independence and agreement with yaml.v3's decoder. Denotation: Proofs/YamlSem.v defines sem from the merge specification alone (a mapping's own pairs with each `<<` replaced in place by its sources' pairs, explicit keys beating merged ones, first merged occurrence beating later ones; no merged set, no key threading) and proves decode_refines_sem: on every graph without a cycle below the root the decoder returns exactly sem, errors included; merged_shortcut_harmless (skipping already-merged mappings never changes the yielded pairs); one-merge corollaries explicit_beats_merged, earlier_source_beats_later, merged_keys_stand_at_merge_position; fuel independence.",
         "note": "trusted: yaml.v3 parser and per-scalar decoding as inputs; denotational equality with the merge spec is checked by oracle, not proved",
         "technique": "Coq proof: termination measure + cycle rejection over arbitrary graphs, merge-filter lemmas; differential correspondence on node graphs",
     },
